@@ -251,10 +251,14 @@ pub fn exec_raw(q: &mut AnyQ, st: &Step) -> u64 {
                 }
                 o
             };
-            q.append(&mut other);
-            // the other queue is used again and dropped
-            other.push(Key::new(0, 1), Prio::new(1));
-            other.pop(End::Max);
+            // whatever happens inside append (a panic in Hash/Eq may tear either queue), the
+            // other queue is used again afterwards and then dropped
+            let r = std::panic::catch_unwind(std::panic::AssertUnwindSafe(|| q.append(&mut other)));
+            poke(&mut other);
+            let _ = guarded(move || drop(other));
+            if let Err(p) = r {
+                std::panic::resume_unwind(p);
+            }
         }
         Step::FromVec { extra } => {
             let old = std::mem::replace(q, construct(kind, Ctor::WithHasher));
@@ -331,6 +335,28 @@ pub fn exec_raw(q: &mut AnyQ, st: &Step) -> u64 {
         }
     }
     leaked
+}
+
+/// A battery of public operations on a queue that may have been torn by a caught panic; every
+/// call is guarded on its own (safe panics are fine, an out-of-bounds unchecked access aborts).
+pub fn poke(q: &mut AnyQ) {
+    let was_armed: Vec<(Cb, bool)> = ALL_CB.iter().map(|c| (*c, armed(*c))).collect();
+    let _ = was_armed;
+    let _ = guarded(|| (q.len(), q.is_empty(), q.peek(End::Min), q.peek(End::Max)));
+    let _ = guarded(|| q.peek_mut(End::Max).map(|(k, _)| k.payload = 1));
+    let _ = guarded(|| q.peek_mut(End::Min).map(|(k, _)| k.payload = 2));
+    let ids: Vec<u32> = guarded(|| q.contents().iter().map(|x| x.0).collect()).unwrap_or_default();
+    for k in ids.iter().take(3) {
+        let _ = guarded(|| q.change_priority_borrowed(&KeyId(*k), Prio::new(7)));
+        let _ = guarded(|| q.get_mut_borrowed(&KeyId(*k)).map(|(kk, _)| kk.payload = 3));
+    }
+    let _ = guarded(|| q.push(Key::new(0x6000_0001, 1), Prio::new(1)));
+    let _ = guarded(|| q.pop(End::Max));
+    let _ = guarded(|| q.pop(End::Min));
+    if let Some(k) = ids.first() {
+        let _ = guarded(|| q.remove_borrowed(&KeyId(*k)));
+    }
+    let _ = guarded(|| q.push(Key::new(0x6000_0002, 1), Prio::new(2)));
 }
 
 #[derive(Debug, Default, Clone)]
